@@ -1,20 +1,20 @@
 #!/bin/bash
-# confirm_mut.sh <id> <crate> <demo file name> : in the scratch worktree /tmp/mut/<id> (change applied,
+# confirm_mut.sh <id> <crate> <demo file name> : in the scratch worktree ${MUTROOT:-/tmp/mut}/<id> (change applied,
 # uncommitted) confirm: suite passes with the change; demo fails with it and passes without it.
 id=$1; crate=$2; demo=$3
-wt=/tmp/mut/$id; out=/tmp/mut/${id}_out
-export CARGO_NET_OFFLINE=true CARGO_TARGET_DIR=/tmp/mut/${id}_target
+wt=${MUTROOT:-/tmp/mut}/$id; out=${MUTROOT:-/tmp/mut}/${id}_out
+export CARGO_NET_OFFLINE=true CARGO_TARGET_DIR=${MUTROOT:-/tmp/mut}/${id}_target
 cd $wt || exit 2
-git diff > /tmp/mut/${id}_cur.diff
-cmp -s /tmp/mut/${id}_cur.diff $out/patch.diff || echo "NOTE: worktree diff differs from patch.diff"
+git diff > ${MUTROOT:-/tmp/mut}/${id}_cur.diff
+cmp -s ${MUTROOT:-/tmp/mut}/${id}_cur.diff $out/patch.diff || echo "NOTE: worktree diff differs from patch.diff"
 suite=$(cargo test --workspace --offline 2>&1 | grep -E "^test result" | awk '{p+=$4; f+=$6} END {print p" passed "f" failed"}')
 mkdir -p $wt/$crate/tests; cp $out/$demo $wt/$crate/tests/
 t=${demo%.rs}
 with=$(cargo test -p $crate --test $t --offline 2>&1 | grep -E "^test result" | head -1)
 # (no `git stash`: the stash is shared between all worktrees of a repository)
-git diff -- . ':!'$crate/tests > /tmp/mut/${id}_cur.diff
-git apply -R /tmp/mut/${id}_cur.diff
+git diff -- . ':!'$crate/tests > ${MUTROOT:-/tmp/mut}/${id}_cur.diff
+git apply -R ${MUTROOT:-/tmp/mut}/${id}_cur.diff
 without=$(cargo test -p $crate --test $t --offline 2>&1 | grep -E "^test result" | head -1)
-git apply /tmp/mut/${id}_cur.diff
+git apply ${MUTROOT:-/tmp/mut}/${id}_cur.diff
 rm -rf $wt/$crate/tests
 echo "$id suite-with-change: $suite | demo-with-change: $with | demo-without: $without"
